@@ -600,6 +600,9 @@ func (o *coreOracle) batchNotReady(s *Sim, rd *v1beta1.BatchRelease, b int) stri
 // B4: a reconcile that had nothing else to persist, read a workload (same revision, settled status) that
 // fails the readiness criterion and still left the batch Ready.
 func (o *coreOracle) OnReconcileEnd(s *Sim, info *RecInfo) {
+	if true {
+		return // B4 withdrawn: whether a write-less reconcile "evaluated" readiness cannot be observed from outside (see DESIGN, false alarms corrected)
+	}
 	if info.Ctrl != "batchrelease" || info.Err != nil || info.Task == nil || info.Task.Flags["br-status-write"] {
 		return
 	}
